@@ -20,7 +20,7 @@ ASSUMPTIONS = ['visibility model: all four sensors within +-60 deg horizontal / 
                'the base station above the deck plane', 'measurements are exact (float64) V1 sweep angles']
 REQUIRED = ['mon.rooms_solved', 'mon.bs_poses_compared', 'mon.cf_poses_compared', 'mon.matcher_groups_checked',
             'mon.unlinkable_rooms', 'mon.partial_visibility_rooms', 'mon.tight_time_layouts', 'mon.matcher_streams',
-            'mon.matcher_streams_with_pause_shorter_than_window']
+            'mon.matcher_streams_with_pause_shorter_than_window', 'mon.rooms_with_windows_of_three_base_stations']
 DESC_TIMEOUT = 1800
 
 
@@ -44,9 +44,27 @@ def run_room(ctx, rseed, mode):
     from cflib.localization.lighthouse_sample_matcher import LighthouseSampleMatcher
     from cflib.localization.lighthouse_types import LhDeck4SensorPositions, LhException, LhMeasurement
     rnd = random.Random(rseed)
-    rm = lhgen.room(rseed)
-    drop = 0.0 if mode == 'full' else rnd.choice((0.2, 0.4))
-    vis = lhgen.visibility(rm, partial_seed=rseed + 1, drop=drop)
+    if mode == 'windows':
+        # structured partial visibility: every pose is seen by a window of three base stations out of 4..6, consecutive
+        # windows overlap in two (so a base station may be reachable only through samples that already hold two
+        # located ones); several poses per window
+        rm = lhgen.room(rseed, n_bs=4 + rseed % 3, n_cf=rnd.randint(12, 30))
+        geo = lhgen.visibility(rm, partial_seed=rseed + 1, drop=0.0)
+        ids_w = list(rm['ids'])
+        rnd.shuffle(ids_w)
+        nwin = len(ids_w) - 2
+        order = list(range(nwin))
+        if rnd.random() < 0.5:
+            rnd.shuffle(order)
+        per = max(1, len(rm['cf']) // nwin)
+        vis = []
+        for k, seen in enumerate(geo):
+            w = order[min(nwin - 1, k // per)]
+            vis.append([i for i in seen if i in ids_w[w:w + 3]])
+    else:
+        rm = lhgen.room(rseed)
+        drop = 0.0 if mode == 'full' else rnd.choice((0.2, 0.4))
+        vis = lhgen.visibility(rm, partial_seed=rseed + 1, drop=drop)
     if mode == 'unlinkable':
         if len(rm['ids']) < 4:
             return 'skip'
@@ -164,6 +182,8 @@ def run_room(ctx, rseed, mode):
     ctx.count('mon.rooms_solved')
     if mode == 'partial':
         ctx.count('mon.partial_visibility_rooms')
+    if mode == 'windows':
+        ctx.count('mon.rooms_with_windows_of_three_base_stations')
     ctx.count('worst_translation_nm', 0)
     ctx.nontrivial((mode, rseed))
     return (worst_t, worst_r, len(rm['ids']), len(ks))
@@ -245,7 +265,7 @@ def run(desc, ctx):
     known_before = sum(1 for v in ctx.violations if v['mech'] == 'lh:sparse-room:mirror-solution-or-unconverged')
     for j in range(desc['rooms']):
         rseed = desc['seed'] * 1000 + j
-        mode = ('full', 'partial', 'full', 'partial', 'unlinkable')[j % 5]
+        mode = ('full', 'partial', 'windows', 'partial', 'unlinkable', 'full', 'windows', 'partial')[j % 8]
         r = run_room(ctx, rseed, mode)
         tries = 0
         while r == 'skip' and tries < 30:
